@@ -988,6 +988,9 @@ class Interp(object):
             return v
         if name in self.builtins:
             return self.builtins[name]
+        import builtins as _bi
+        if hasattr(_bi, name):
+            raise self.err('python builtin %r is not modelled' % name)       # a gap of the analysis, not a NameError of the program
         raise InterpRaise("name '%s' is not defined" % name, 'NameError')
 
     def eval_index(self, s, fr):
@@ -1239,6 +1242,27 @@ class Interp(object):
                     raise I.err('isinstance with %r' % (c,))
             return False
 
+        def b_issubclass(c, t):
+            ts = t if isinstance(t, tuple) else (t,)
+            for b in ts:
+                if isinstance(c, ClassRef) and isinstance(b, ClassRef):
+                    if c.cls.is_subclass_of(b.cls):
+                        return True
+                elif isinstance(c, type) and isinstance(b, type):
+                    if issubclass(c, b):
+                        return True
+                elif isinstance(b, TypeLike) and b.__name__ == 'generic':
+                    if isinstance(c, TypeLike) and c.__name__ in ('number', 'integer', 'floating', 'complexfloating', 'bool_', 'generic'):
+                        return True              # the numpy scalar types; python's int / float / complex are not
+                elif isinstance(c, TypeLike) and isinstance(b, TypeLike):
+                    if c is b:
+                        return True
+                elif isinstance(c, (type, TypeLike, ClassRef)) and isinstance(b, (type, TypeLike, ClassRef)):
+                    continue
+                else:
+                    raise I.err('issubclass(%r, %r)' % (c, b))
+            return False
+
         def b_hasattr(x, name):
             if isinstance(x, Obj):
                 return name in x.attrs or x.cls.lookup(name) is not None
@@ -1343,7 +1367,7 @@ class Interp(object):
             'min': b_minmax('min'), 'max': b_minmax('max'), 'abs': b_abs, 'sum': b_sum,
             'enumerate': lambda it, start=0: enumerate(I.iterate(it), start),
             'zip': lambda *its: zip(*[I.iterate(i) for i in its]),
-            'isinstance': b_isinstance, 'hasattr': b_hasattr, 'getattr': b_getattr, 'setattr': b_setattr,
+            'isinstance': b_isinstance, 'issubclass': b_issubclass, 'hasattr': b_hasattr, 'getattr': b_getattr, 'setattr': b_setattr,
             'callable': b_callable, 'print': lambda *a, **k: None, 'sorted': sorted,
             'reversed': lambda x: reversed(list(I.iterate(x))), 'any': b_any, 'all': b_all,
             'map': lambda f, *its: map(f, *[I.iterate(i) for i in its]),
